@@ -1,7 +1,7 @@
 /-
 Model of `cue mod tidy` (published view, no module replaces), transcribing
 
-  internal/mod/modload/tidy.go      tidy, tidyOnce, resolveDependencies, resolveMissingImports,
+  internal/mod/modload/tidy.go      tidy, tidyOnce (incl. keepImpliedDefaults), resolveDependencies, resolveMissingImports,
                                     updateRoots (the branch tidy reaches: roots were added),
                                     tidyRoots, modfileFromRequirements, CheckTidy/equalRequirements
   internal/mod/modload/query.go     queryImport, queryLatestModules, LatestVersion
@@ -438,28 +438,10 @@ def initReqs (main : Mod) : Reqs :=
 def depsOf (roots : List (MPath Ã— Nat)) (dflts : List (Path Ã— Nat)) : List Dep :=
   sortDedup (fun d => d.mp.key) (roots.map (fun r => { mp := r.1, rank := r.2, dflt := lookupD dflts r.1.base == some r.1.major }))
 
-def tidy (main0 : Mod) (reg : Reg) (fuel : Nat) : Except Err (List Dep) :=
-  if !wfMain main0 then .error .other else
-  let main := normMod main0
-  match resolveLoop main reg fuel fuel (initReqs main) with
-  | .error e => .error e
-  | .ok (rs, pkgs) =>
-    if pkgs.any (fun p => p.2.isErr) then .error .other
-    else
-      let roots := tidyRoots pkgs
-      match graphSel reg roots with
-      | none => .error .graph
-      | some _ => .ok (depsOf roots rs.dflts)
-
-/-! ### the repair of finding `two-majors-no-default`
-(notes/patches/C17-two-majors-no-default.diff: `keepImpliedDefaults` in tidyOnce).  Not part of
-`tidy`, which describes the unchanged tree; `Driver/C17.lean` answers with `tidyFixed` once
-the repair is committed (`fixedTwoMajors := true`). -/
-
-/-- the default-major-version map after tidyRoots: every base path for which an import without
+/-- keepImpliedDefaults (tidyOnce, after tidyRoots): every base path for which an import without
 a major version was resolved through the implied default "the only major among the roots"
 (`.nonexplicit`) and which has several majors among the tidy roots gets that major as an
-explicit default -/
+explicit default.  (Repair 8593d77 of the former finding `two-majors-no-default`.) -/
 def keepImpliedDefaults (rs : Reqs) (pkgs : List (Imp Ã— PkgRes)) : List (Path Ã— Nat) :=
   let troots := tidyRoots pkgs
   pkgs.foldl (fun d p =>
@@ -472,7 +454,7 @@ def keepImpliedDefaults (rs : Reqs) (pkgs : List (Imp Ã— PkgRes)) : List (Path Ã
       | _ => d
     | _, _ => d) rs.dflts
 
-def tidyFixed (main0 : Mod) (reg : Reg) (fuel : Nat) : Except Err (List Dep) :=
+def tidy (main0 : Mod) (reg : Reg) (fuel : Nat) : Except Err (List Dep) :=
   if !wfMain main0 then .error .other else
   let main := normMod main0
   match resolveLoop main reg fuel fuel (initReqs main) with
